@@ -433,6 +433,16 @@ def handle (memo : Memo) (line : String) : Memo × String :=
           let (o, ok) := cliVerifyMetadata (memoCrypto memo') tb ub
           (memo', showOutcome o ++ (if ok then " success" else " -") ++ " exit=" ++ toString (exitStatus .script o))
         | _, _ => (memo, "X bad-args")
+      | ["verifyio", stdoutState, t, u] =>
+        -- the same command under a standard output that takes text / fails on every write / is absent
+        match optBytes t, optBytes u, (match stdoutState with | "ok" => some Stdout.takesText | "failing" => some Stdout.failing | "absent" => some Stdout.absent | _ => none) with
+        | some tb, some ub, some st =>
+          let memo' := match ub with
+            | some b => (match loadBytes b with | some uj => warm (warm memo uj true) uj false | none => memo)
+            | none => memo
+          let (o, ok) := cliVerifyUnder (memoCrypto memo') st tb ub
+          (memo', showOutcome o ++ (if ok then " success" else " -") ++ " exit=" ++ toString (exitStatus .script o))
+        | _, _, _ => (memo, "X bad-args")
       | ["sign", r, k] =>
         match optBytes r with
         | some rb =>
